@@ -187,6 +187,22 @@ def select_exhaustive(tier):
                 yield f"SELECT count={c} S={','.join(map(str, sc))}"
 
 
+def select_multi_random(rng, count):
+    """several correlations (references x strands) whose peaks differ in height AND in score (score = height minus
+    the correlation's own noise level, so the two rankings disagree across correlations), ties included"""
+    for _ in range(count):
+        ng = rng.randrange(1, 7)
+        S, H, G = [], [], []
+        for _ in range(ng):
+            k = rng.randrange(0, 5)
+            noise = rng.choice([0, 5, 20, 40])
+            hs = sorted((rng.randrange(40, 100) for _ in range(k)), reverse=rng.random() < 0.5)
+            H += hs
+            S += [h - noise for h in hs]
+            G.append(k)
+        yield f"SELECT count={rng.choice([0, 1, 2, 3, 3, 5])} G={','.join(map(str, G))} H={','.join(map(str, H))} S={','.join(map(str, S))}"
+
+
 def filter_exhaustive(tier):
     m = 4 if tier == "quick" else 5
     for n in range(0, m + 1):
@@ -980,3 +996,27 @@ def refine_lattice(rng, count):
         peak = rng.randrange(-60 * res, 460 * res)
         yield (f"REFINE sec={sec} rev={rng.randrange(2)} peak={peak} REF={mapstr(1, R[-1] + 1 + rng.randrange(0, 50), 0, R)} "
                f"QRY={mapstr(2, qlen, 0, Q)}")
+
+
+def primary_random(rng, count):
+    """the real `getInitialAlignment` (primary stage) on reference/query pairs at several resolutions"""
+    for _ in range(count):
+        R = make_reference(rng, rng.randrange(15, 120), 9000, rng.choice([500, 2000, 2000]))
+        c = rng.random()
+        if c < 0.7:
+            Q, off, _ = make_query(rng, R, rng.random() < 0.4)
+        elif c < 0.85:
+            Q = rand_map(rng, rng.randrange(1, 30), 9000, 500)
+            Q = [q - Q[0] for q in Q]
+        else:   # longer than the reference / than its labelled part
+            Q = rand_map(rng, rng.randrange(2, 12), rng.choice([9000, 90000]), 500)
+            Q = [q - Q[0] for q in Q]
+        tail = rng.choice([0, 0, rng.randrange(0, 9000)])
+        qlen = Q[-1] + 1 + tail
+        rev = rng.random() < 0.5
+        qq = [qlen - 1 - q for q in reversed(Q)] if rev else Q
+        res, bl = rng.choice([(1400, 1), (1400, 1), (700, 2), (100, 1), (2000, 0)])
+        mpd = rng.choice([20000, 20000, res, 3 * res, 50000])
+        reflen = R[-1] + 1 + rng.choice([0, rng.randrange(0, 30000), 400000])
+        yield (f"PRIMARY res={res} blur={bl} mpd={mpd} count={rng.choice([1, 2, 3, 3, 5])} rev={1 if rev else 0} "
+               f"REF={mapstr(1, reflen, 0, R)} QRY={mapstr(2, qlen, 0, qq)}")
